@@ -32,6 +32,9 @@ func (x dec) Decode(p *rtp.Packet) (codec.Frame, int) {
 }
 func (x dec) Raw() any { return x.d }
 
+// thorough tier: many more cases, most of them with smaller frames (bounds the case files)
+var thorough bool
+
 func genFrame(r *hx.Rand, max, _ int) codec.Frame {
 	c := max - 1 // bytes per packet after the 1-byte descriptor
 	var n int
@@ -55,8 +58,12 @@ func genFrame(r *hx.Rand, max, _ int) codec.Frame {
 	if n > 40*c+8 {
 		n = r.Range(1, 40*c+8)
 	}
-	if n > 20000 {
-		n = 20000
+	limit := 20000
+	if thorough && r.Intn(8) != 0 {
+		limit = 3000
+	}
+	if n > limit {
+		n = r.Range(1, limit)
 	}
 	return codec.Frame{r.Bytes(n)}
 }
@@ -127,6 +134,8 @@ var Format = &codec.Format{
 func main() {
 	ctx := hx.Start("vp8")
 	defer ctx.Finish()
+	thorough = ctx.Thorough
+	ctx.Sample("rtpvp8: frames of k*(max-1)+-8 bytes, limits 2..9000")
 	if lines := ctx.ReplayLines(); lines != nil {
 		replay(ctx, lines)
 		return
